@@ -20,6 +20,8 @@ IS_CORO_FN = z3.Function('is_coroutine_function', PyV, BoolS)
 IS_CALLABLE = z3.Function('is_callable', PyV, BoolS)
 TAG_IN = z3.Function('tag_in', PyV, StrS, BoolS)
 USER = 'user code: '
+SEQ_LEN = z3.Function('seq_len', PyV, IntS)
+SEQ_AT = z3.Function('seq_at', PyV, IntS, PyV)
 
 
 class UserCallPlugin:
@@ -70,6 +72,19 @@ class UserCallPlugin:
             name = item.value if isinstance(item, EnumMember) else item
             used(it, USER + 'membership of a tag in a node\'s tags tuple is an uninterpreted predicate')
             return (wrap_bool(TAG_IN(container.t, z3.StringVal(name))),)
+        return None
+
+    def iterate(self, it, v):
+        # a list / tuple stored as an opaque value (e.g. the `oneof_nodes` graph attribute): an abstract sequence
+        # whose length and elements are uninterpreted functions of the value (the same on every iteration)
+        if isinstance(v, SymV):
+            st = it.st
+            used(it, 'iteration over a stored list value: a fixed abstract sequence SEQ_AT(v, 0..SEQ_LEN(v))')
+            arr = st.fresh_array('seqview', IntS, PyV)
+            i = z3.Int('svi')
+            st.assume(FA([i], z3.Select(arr, i) == SEQ_AT(v.t, i), patterns=[z3.Select(arr, i)]))
+            st.assume(SEQ_LEN(v.t) >= 0)
+            return SymSeq(SEQ_LEN(v.t), arr)
         return None
 
     def lib_value(self, it, dotted):
